@@ -137,10 +137,25 @@ package tags
 
 // ---- for / tablerow render closure: the else branch renders exactly when nothing is selected
 
+// What a loop iterates over is a function of the collection VALUE: arrays and slices of any
+// element type are wrapped as they are; a map becomes the sequence of its [key, value] pairs
+// in the order of values.SortedMapKeys (never Go's random map order); anything else is nil.
 //@ func tags.makeIterator
-//@ unverified
 //@ props C11 C18 C02 C01
+//@ panics nothing
+//@ assigns alloc S$Slc, alloc S$Val, alloc S$Str, alloc S$RV
+//@ ghost ks []reflect.Value = nil
+//@ at call SortedMapKeys #1: ks = result
 //@ ensures nilcase: value == nil ==> result == nil
+//@ ensures already: is(value, tags.iterable) ==> result == value
+//@ ensures arrays: value != nil && !is(value, tags.iterable) && !is(value, tags.IterationKeyedMap) && !is(value, yaml.MapSlice) && (kind(value) == reflect.Array || kind(value) == reflect.Slice) ==> result == box(reflect.ValueOf(value), tags.sliceWrapper)
+//@ ensures others: value != nil && !is(value, tags.iterable) && !is(value, tags.IterationKeyedMap) && !is(value, yaml.MapSlice) && kind(value) != reflect.Array && kind(value) != reflect.Slice && kind(value) != reflect.Map ==> result == nil
+//@ ensures maps: value != nil && !is(value, tags.iterable) && !is(value, tags.IterationKeyedMap) && !is(value, yaml.MapSlice) && kind(value) == reflect.Map ==> is(result, tags.sliceWrapper) && is(rv_val(as(result, tags.sliceWrapper)), [][]any) && len(as(rv_val(as(result, tags.sliceWrapper)), [][]any)) == len(ks) && len(ks) == pl_len(value) && forall(j, 0, len(ks), len(as(rv_val(as(result, tags.sliceWrapper)), [][]any)[j]) == 2 && as(rv_val(as(result, tags.sliceWrapper)), [][]any)[j][0] == rv_val(ks[j]) && as(rv_val(as(result, tags.sliceWrapper)), [][]any)[j][1] == pl_mget(value, rv_val(ks[j])))
+//@ loop 1 invariant sizes: fresh(array) && len(array) == pl_len(value) && len(ks) == pl_len(value)
+//@ loop 1 invariant pairs: forall(j, 0, _i, len(array[j]) == 2 && fresh(array[j]) && s_base(array[j]) < alloc)
+//@ loop 1 invariant firsts: forall(j, 0, _i, array[j][0] == rv_val(ks[j]))
+//@ loop 1 invariant seconds: forall(j, 0, _i, array[j][1] == pl_mget(value, rv_val(ks[j])))
+//@ loop 1 invariant keys: sameold("S$RV") && forall(j, 0, len(ks), rv_valid(ks[j]) && pl_mhas(value, rv_val(ks[j])) && (rv_iface(ks[j]) || tassignable(typeof(rv_val(ks[j])), tkey(typeof(value)))))
 
 //@ func tags.loopTagCompiler$1
 //@ nocapture
@@ -409,3 +424,17 @@ package tags
 //@ ensures includeError: re != nil ==> result == re && wrote == 0
 //@ ensures inserted: e == nil && is(v, string) && re == nil ==> wrote == 1
 //@ ensures writeError: werr != nil ==> result != nil
+
+// IterationKeyedMap: the keys in strictly increasing string order - a function of the key set
+//@ func tags.makeIterationKeyedMap
+//@ props C02 C11 C01
+//@ panics nothing
+//@ assigns alloc S$Str
+//@ ensures wrapped: is(result, tags.sliceWrapper) && is(rv_val(as(result, tags.sliceWrapper)), []string)
+//@ ensures count: len(as(rv_val(as(result, tags.sliceWrapper)), []string)) == len(m)
+//@ ensures sorted: forall(i, 1, len(as(rv_val(as(result, tags.sliceWrapper)), []string)), as(rv_val(as(result, tags.sliceWrapper)), []string)[i-1] < as(rv_val(as(result, tags.sliceWrapper)), []string)[i])
+//@ ensures keys: forall(i, 0, len(as(rv_val(as(result, tags.sliceWrapper)), []string)), has(m, as(rv_val(as(result, tags.sliceWrapper)), []string)[i]))
+//@ loop 1 invariant collected: fresh(keys) && len(keys) == nvisited() && cap(keys) >= len(keys)
+//@ loop 1 invariant members: forall(i, 0, len(keys), has(m, keys[i]) && visited(keys[i]))
+//@ loop 1 invariant subset: forall(k, "Str", visited(k) ==> has(m, k))
+//@ loop 1 invariant distinct: forall(i, 0, len(keys), forall(j, 0, i, keys[i] != keys[j]))
